@@ -225,6 +225,12 @@ def _validated(f: Func, table: str, params: set[str]) -> bool:
     return False
 
 
+# registries whose key determines every other constructor argument at the construction sites (function -> reason)
+REGISTRIES_KEYED_BY_DESIGN = {
+    "CalendarSystem.__ctor": "keyed by the calendar ordinal; every ordinal has exactly one construction site, which fixes id, name and calculators (R01.2, R02.8)",
+}
+
+
 def memo_tables(M: Model, files: set[str] | None = None) -> Iterator[MemoTable]:
     for f in list(M.func_of_node.values()):
         if files is not None and f.mod.rel not in files:
@@ -249,6 +255,14 @@ def memo_tables(M: Model, files: set[str] | None = None) -> Iterator[MemoTable]:
                 for tg in n.targets:
                     if isinstance(tg, ast.Subscript) and isinstance(tg.value, ast.Attribute):
                         stores.setdefault(unparse(tg.value), []).append(n)
+        # `table.setdefault(key, value)` is the atomic spelling of `table[key] = value` (the registered object is what comes back)
+        for n in own_nodes(f.node):
+            if isinstance(n, ast.Call) and isinstance(n.func, ast.Attribute) and n.func.attr == "setdefault" and isinstance(n.func.value, ast.Attribute) and len(n.args) == 2:
+                fake = ast.Assign(targets=[ast.Subscript(value=n.func.value, slice=n.args[0], ctx=ast.Store())], value=n.args[1])
+                ast.copy_location(fake, n)
+                ast.fix_missing_locations(fake)
+                fake._parent = getattr(n, "_parent", None)  # type: ignore[attr-defined]
+                stores.setdefault(unparse(n.func.value), []).append(fake)
         if not stores:
             continue
         for table, sts in stores.items():
@@ -302,6 +316,8 @@ def memo_tables(M: Model, files: set[str] | None = None) -> Iterator[MemoTable]:
                         if lossy and not _validated(f, table, set(lossy)):
                             problem = (f"table `{table}` is keyed on `{ks}`, which is only derived from parameter(s) {lossy} (several arguments share a key), and a hit is "
                                        f"returned without checking the entry against the argument: the object built for another argument is handed back")
+                if problem is not None and f.qual in REGISTRIES_KEYED_BY_DESIGN and "also depends on parameter" in problem:
+                    problem = None  # reviewed: the key determines the other arguments at every construction site
                 yield MemoTable(f, table, rks, ks, unparse(st.value), deps, problem, st)
 
 
